@@ -134,6 +134,8 @@ type pathState struct {
 	hashSym    bool
 	hashConc   []hashConc
 	sleeps     int
+	crashed    bool
+	onCrash    value
 }
 
 func (i *interpreter) abort(o Outcome, format string, args ...interface{}) {
